@@ -3,6 +3,7 @@
 use crate::driver::{minimise, run_generated, run_ops, ReplayDoc};
 use crate::gen::Swarm;
 use crate::scen_bt::Bt;
+use crate::scen_ddl::Ddl;
 use crate::scen_hist::Hist;
 use crate::scen_mask::Mask;
 use crate::scen_trig::Trg;
@@ -75,6 +76,18 @@ pub fn spec(id: &str) -> Option<PropSpec> {
             level: "exploration",
             rule: "each run = target table t(id, v, w), audit table, 2-5 seeded triggers (BEFORE/AFTER x INSERT/UPDATE/UPDATE OF v/DELETE x ROW/STATEMENT, optional WHEN on w, a seeded subset with a failing body) and a seeded history of single/multi-row INSERT, UPDATE (of v or of the key) and DELETE statements, some matching zero rows; an evaluation is one comparison of the audit table with the model's expected firings (or one unchanged-state check after a failing trigger); non-trivial = >=1 successful statement and >=1 comparison; distinct = distinct hash of (statement kinds, outcome classes, reach probes)",
             assumptions: &["affected rows and their new images are read with the SUT's own SELECT on the pre-state", "triggers are created through CreateTriggerStmt values, as the repository's own trigger tests do (the SQL text form of CREATE TRIGGER stores the body as debug-printed tokens and cannot be executed)", "UPDATE OF v triggers: the workload either assigns v a different value or does not assign it, so 'column in the SET list' and 'value changed' coincide", "WHEN conditions test column w, which the workload's UPDATEs never assign (OLD.w = NEW.w)", "statement-level triggers are expected once per statement, also when no row matches"],
+            stubs: &[],
+            quarantine_note: "",
+        },
+        "C33" => PropSpec {
+            id: "C33",
+            scenario: "ddl",
+            label: 33,
+            runs_quick: 20000,
+            runs_thorough: 300000,
+            level: "exploration",
+            rule: "each run = one seeded history of CREATE/DROP TABLE, CREATE/DROP INDEX, ALTER TABLE (ADD/DROP/CHANGE COLUMN, RENAME TO, ADD/DROP CONSTRAINT), INSERT/UPDATE/DELETE and index-driven probes over a pool of 3 table, 7 column and 4 index names written in random identifier case; an evaluation is one comparison after a step (catalog vs storage vs accepted-statement model listing, declared vs stored columns, row arity, queryability, index registries vs existing objects, index contents vs the same CREATE INDEX on the current rows, constraint hash indexes vs rebuild, retained-column data across ALTER, probe with vs without index scans); non-trivial = >=1 accepted statement and >=1 comparison; distinct = distinct hash of (operation kinds, outcome classes, reach probes)",
+            assumptions: &["the model of which objects must exist is built only from statements the engine accepted; a refused statement is not second-guessed, except CREATE TABLE of a name no table has", "an index that the engine drops on its own together with its column or table is not demanded back", "column rename is exercised through CHANGE COLUMN (RENAME COLUMN is not in the grammar)", "index scans are switched off for the comparison probe through guarded hook H5 (INDEX_SCAN)"],
             stubs: &[],
             quarantine_note: "",
         },
@@ -170,6 +183,9 @@ fn tweak_for(prop: &str) -> impl Fn(&mut Swarm) {
             sw.with_tx = false;
             sw.steps = sw.steps.max(16);
         }
+        "C33" => {
+            sw.steps = sw.steps.max(24);
+        }
         "C17" => {
             sw.steps = *[30usize, 80, 150, 400].get((sw.domain % 4) as usize).unwrap_or(&150);
         }
@@ -230,6 +246,7 @@ pub fn run(prop: &str, run_seed: u64, guards: &[String]) -> RunReport {
         "C09" | "C10" | "C11" | "C12" | "C13" | "C14" | "C15" | "C24" => run_generated::<Hist>(prop, run_seed, guards, tweak_for(prop)),
         "C34" => run_generated::<Trg>(prop, run_seed, guards, tweak_for(prop)),
         "C17" => run_generated::<Bt>(prop, run_seed, guards, tweak_for(prop)),
+        "C33" => run_generated::<Ddl>(prop, run_seed, guards, tweak_for(prop)),
         "C03" | "C04" | "C05" | "C32" => run_generated::<Mask>(prop, run_seed, guards, tweak_for(prop)),
         "C02" | "C16" | "C18" | "C19" => run_generated::<Twin>(prop, run_seed, guards, tweak_for(prop)),
         _ => panic!("unknown property {}", prop),
@@ -242,6 +259,7 @@ pub fn replay(doc: &ReplayDoc) -> (Option<Violation>, u64) {
         "twin" => run_ops::<Twin>(&doc.property, &doc.swarm, &doc.ops),
         "mask" => run_ops::<Mask>(&doc.property, &doc.swarm, &doc.ops),
         "bt" => run_ops::<Bt>(&doc.property, &doc.swarm, &doc.ops),
+        "ddl" => run_ops::<Ddl>(&doc.property, &doc.swarm, &doc.ops),
         "trig" => run_ops::<Trg>(&doc.property, &doc.swarm, &doc.ops),
         other => panic!("unknown scenario {}", other),
     }
@@ -253,6 +271,7 @@ pub fn minimise_doc(doc: &ReplayDoc) -> ReplayDoc {
         "twin" => minimise::<Twin>(doc),
         "mask" => minimise::<Mask>(doc),
         "bt" => minimise::<Bt>(doc),
+        "ddl" => minimise::<Ddl>(doc),
         "trig" => minimise::<Trg>(doc),
         _ => doc.clone(),
     }
